@@ -82,8 +82,8 @@ def gen_scenario(rng):
     recs = [list(r) for r in T.gen_records(rng, (3, 5, 8))]
     for _ in range(rng.randint(1, 2)):
         fmt, _, _ = T.gen_fmt(rng, allow_hidden=False)
-        if 'st' not in fmt:
-            fmt = "st," + fmt
+        if 'st' not in fmt or (not objects and not fmt.startswith("st")):
+            fmt = "st," + fmt       # (the first table always starts with the enum column)
         titles = None
         if rng.random() < 0.5:
             # multi-line titles with items that are not strings
@@ -336,7 +336,42 @@ def run_scenario(ctx, scenario, case, workdir):
         ctx.nontrivial(sig_of(scenario))
 
 
+def first_use_case(ctx, k):
+    """an object is rendered with a palette class of the application under a configuration nothing was rendered with
+    before; then a stock table is rendered under that configuration; then the object again: the same text"""
+    from ak.color import ColorsConfig
+    from ak.ppobj import PPTable, PrettyPrinter
+    ctx.evaluated()
+    rng = random.Random("first-use/%d" % k)
+    conf = ColorsConfig(dict(gen_conf(rng), NUMBER="MAGENTA:bold", TEXT="CYAN"))
+    recs = [(1, "b", 2, "d"), (30, "x", 400, "y"), (5, 7, 1, 2.5)]
+    which = k % 3
+    if which == 0:
+        pp = PrettyPrinter()
+        show = lambda: str(pp([1, 2.5, {"k": 3, "m": [7, 8]}], palette=R.custom_pp_palette(), colors_conf=conf))   # noqa: E731
+    else:
+        tbl = PPTable(recs, fields=T.FIELDS, fmt="st,a" if which == 1 else "st/val,st", fields_types=T.mk_field_types())
+        show = lambda: str(tbl.ch_text(palette=R.custom_table_palette(2 if which == 1 else 5), colors_conf=conf))   # noqa: E731
+    case = {"first_use": k}
+    try:
+        first = show()
+        other = PPTable(recs, fields=T.FIELDS, fmt="a,b,st,d", fields_types=T.mk_field_types())
+        str(other.ch_text(colors_conf=conf))
+        second = show()
+    except Exception as err:
+        ctx.violation("rendering-raises", {"type": type(err).__name__, "msg": str(err)[:200], "first_use": k}, case)
+        return
+    ctx.count("objects_rendered_as_the_first_use_of_a_configuration")
+    if first != second:
+        at = next((i for i, (a, b) in enumerate(zip(first, second)) if a != b), 0)
+        ctx.violation("colours-depend-on-history", {"object": ["pp", "table", "table"][which], "at": at,
+                                                     "first": first[max(0, at - 30):at + 30],
+                                                     "after_another_table": second[max(0, at - 30):at + 30]}, case)
+
+
 def run_shard(ctx):
+    for k in range(9):
+        first_use_case(ctx, ctx.shard * 9 + k)
     workdir = tempfile.mkdtemp(prefix="vf-c10-")
     try:
         for i in range(ctx.cases):
@@ -352,6 +387,9 @@ def run_shard(ctx):
 
 
 def replay(ctx, case):
+    if "first_use" in case:
+        first_use_case(ctx, case["first_use"])
+        return
     workdir = tempfile.mkdtemp(prefix="vf-c10-")
     try:
         run_scenario(ctx, gen_scenario(random.Random(case["rng_key"])), case, workdir)
